@@ -13,7 +13,7 @@ Definition reg_x (x : mtask) : mtask :=
 Definition can_start (y : mtask) : Prop :=
   match m_kind y with
   | MMap _ => exists e, nth_error (m_els y) (m_idx y) = Some e /\ e_bad e = false
-  | _ => m_bad y = false /\ m_idx y < m_num y
+  | _ => nth (m_idx y) (m_bad y) false = false /\ m_idx y < m_num y
   end.
 
 Lemma register_fields s m x :
